@@ -489,6 +489,12 @@ func (x *Exec) contractCall(st *State, fr *Frame, con *FuncContract, callee *ssa
 		}
 	}
 	for _, c := range con.Ensures {
+		if x.Lib.OpenFindings[con.Key+"/"+c.Label] {
+			// a clause recorded as violated by the code (open known finding) is not proved, so it must not be
+			// assumed at call sites either (it would contradict what the code does and make callers vacuous)
+			x.C.used["not assumed at call sites (open known finding): "+con.Key+"/"+c.Label] = true
+			continue
+		}
 		var unf []string
 		env := &Env{x: x, st: st, old: pre, names: names, bound: map[string]Val{}, pkg: pkg, frame: nil, unfold: &unf}
 		// fresh() in a callee postcondition means: allocated during the call
